@@ -92,3 +92,42 @@ Theorem C12_prune_on_failed_send_refuted :
   exists p, trun true tinit prune_trace = Some p /\ t_mode p = MDone /\ stuck_reaper p /\ all_finished p = false.
 Proof. exact prune_on_failed_send_refuted. Qed.
 Print Assumptions C12_prune_on_failed_send_refuted.
+
+(* "every API call returns ErrNotRunning or a result instead of blocking": the
+   request protocol of cache.sync/update/refilter/List/Get, publisher.Subscribe,
+   filterSubscription.Refilter, watcher.reset/events, one step per channel
+   operation, any number of callers, calls before, during and after shutdown
+   (ApiCall.v) *)
+From KC Require Import ApiCall ApiCallProps.
+
+(* from every reachable state the steps of the actor and of the caller alone
+   complete a pending call — whatever other callers do or do not do *)
+Theorem C12_api_call_never_blocks : forall n r s i c,
+  areach n r s -> nth_error (a_callers s) i = Some c -> pending c = true -> completes i s.
+Proof. exact api_call_never_blocks. Qed.
+Print Assumptions C12_api_call_never_blocks.
+
+(* an accepted request is answered even when a shutdown was requested meanwhile *)
+Theorem C12_accepted_request_is_served : forall n r s i,
+  areach n r s -> nth_error (a_callers s) i = Some CWait -> a_actor s = AServing i.
+Proof. exact accepted_request_is_served. Qed.
+Print Assumptions C12_accepted_request_is_served.
+
+(* once stopped, nothing is accepted any more and a caller gets ErrNotRunning *)
+Theorem C12_stopped_actor_accepts_nothing : forall s i, a_actor s = AStopped -> astep s (XAccept i) = None.
+Proof. exact stopped_actor_accepts_nothing. Qed.
+Print Assumptions C12_stopped_actor_accepts_nothing.
+
+Theorem C12_call_after_stop_returns_error : forall n r s i,
+  areach n r s -> a_actor s = AStopped -> nth_error (a_callers s) i = Some CSelect ->
+  exists s', astep s (XSeeStop i) = Some s' /\ nth_error (a_callers s') i = Some CErr.
+Proof. exact call_after_stop_returns_error. Qed.
+Print Assumptions C12_call_after_stop_returns_error.
+
+(* a Subscribe racing with the shutdown: whatever subscription was handed out
+   (at any index, at any moment) is itself shut down once the publisher has
+   left its drain loop *)
+Theorem C12_racing_subscribe_is_shut_down : forall p i c,
+  treach p -> receiving (t_mode p) = false -> nth_error (t_subs p) i = Some c -> t_phase c = SClosed.
+Proof. exact racing_subscribe_is_shut_down. Qed.
+Print Assumptions C12_racing_subscribe_is_shut_down.
